@@ -70,7 +70,9 @@ def generate(ctx):
                      "B": rng.randint(1, 3), "T": rng.randint(6, 10), "signs": sg, "trace_mode": rng.choice(["cumulative", "nearest"]),
                      "delay": delay, "delayed": bool(delay) and name in tr.HAS_DELAYED_FLAG and rng.random() < 0.5,
                      "reduction": rng.choice(["sum", "mean", "amax"]), "reward": rng.choice(["scalar+", "scalar-", "tensor"]),
-                     "scale": 1.0, "p": rng.choice([0.4, 0.7]), "seed": rng.randrange(1 << 30), "spy_bounds": rng.random() < 0.5}
+                     "scale": 1.0, "p": rng.choice([0.4, 0.7]), "seed": rng.randrange(1 << 30), "spy_bounds": rng.random() < 0.5,
+                     "per_cell": rng.random() < 0.5, "lr_a3": rng.choice([0.3, -0.3, 1.5, -1.5]), "lr_b3": rng.choice([0.2, -0.2, 1.2, -1.2]),
+                     "tensor_kwargs": rng.choice([[], ["post_learning_rate"], ["post_time_constant", "pre_learning_rate"]])}
                 if d["reward"] == "tensor" and name in tr.THREE_FACTOR:
                     d["reduction"] = "sum"
                 yield d
@@ -138,11 +140,13 @@ def _routing(ctx, desc, pre, post, rewards):
     """spy half-bounding functions must receive exactly reduce(potentiating parts) / reduce(depressing parts)"""
     name = desc["trainer"]
     a, b = c08.SIGNS[desc["signs"]]
-    hyper = {"lr_a": a, "lr_b": b, "trace_mode": desc["trace_mode"], "delayed": desc["delayed"]}
+    hyper = {"lr_a": a, "lr_b": b, "trace_mode": desc["trace_mode"], "delayed": desc["delayed"], "lr_a3": desc["lr_a3"],
+             "lr_b3": desc["lr_b3"], "tensor_kwargs": desc["tensor_kwargs"]}
     red = desc["reduction"]
     try:
         h = tr.Harness(name, desc["conn"], dt=desc["dt"], B=desc["B"], delay_steps=desc["delay"], seed=desc["seed"],
-                       batch_reduction=c08.RED[red], hyper=hyper, dtype=torch.float64, max_delay_steps=(3 if desc["delay"] else None))
+                       batch_reduction=c08.RED[red], hyper=hyper, dtype=torch.float64, max_delay_steps=(3 if desc["delay"] else None),
+                       per_cell=desc["per_cell"])
     except Exception as e:  # noqa: BLE001
         return ctx.violation(ctx.exc_signature(e, f"construct.{name}"), f"{type(e).__name__}: {str(e)[:160]}", desc)
     orc = tr.Oracle(name, desc["conn"], h.conn, h.dt, hyper, red)
